@@ -122,7 +122,7 @@ class FrameParser(Parser):
             and (frame.is_text or frame.is_continuation)
         ):
             self._utf8_validator.reset()
-        if frame.fin:
+        if frame.fin and not frame.is_control:
             self._is_text = False
 
 
